@@ -222,7 +222,23 @@ def check_taint(run, rule, fns):
                         return bad
                     if e.get("k") == "Call" and callee_name(e) == "min":
                         args = e.get("args", [])
-                        if any(not (contains_source(a) or refs_any(a, tl)) for a in args):
+                        # a bound only counts if it cannot itself come from the input: a constant, or the size of something
+                        # that already exists (members of read-side objects and parameters may hold values another reader took
+                        # from the file: `min(length, max_block_items)` is one wire value capped by another)
+                        def trusted_bound(a_):
+                            if contains_source(a_) or refs_any(a_, tl):
+                                return False
+                            u_ = ir.unwrap_all_casts(a_)
+                            if const_value(a_) is not None or const_value(u_) is not None:
+                                return True
+                            if isinstance(u_, dict) and u_.get("k") == "Ref" and u_.get("d") == "global" and u_.get("const"):
+                                return True
+                            if isinstance(u_, dict) and u_.get("k") == "MCall" and callee_name(u_) in ("size", "length", "capacity", "max_size") and not u_.get("args"):
+                                return True
+                            if isinstance(u_, dict) and u_.get("k") == "Bin" and u_.get("op") in ("+", "-", "*"):
+                                return trusted_bound(u_["lhs"]) and trusted_bound(u_["rhs"])
+                            return False
+                        if any(trusted_bound(a) for a in args):
                             inside = True
                     if e.get("k") == "Ref":
                         pp = path(e)
